@@ -5,6 +5,7 @@ prop_mod!(c02, "c02.rs");
 prop_mod!(c03, "c03.rs");
 prop_mod!(c04, "c04.rs");
 prop_mod!(c05, "c05.rs");
+prop_mod!(c06, "c06.rs");
 prop_mod!(c08, "c08.rs");
 
 fn dispatch(env: &common::Env) -> (&'static str, Vec<common::Sub>) {
@@ -14,6 +15,7 @@ fn dispatch(env: &common::Env) -> (&'static str, Vec<common::Sub>) {
         "C03" => (c03::LEVEL, c03::subs(env)),
         "C04" => (c04::LEVEL, c04::subs(env)),
         "C05" => (c05::LEVEL, c05::subs(env)),
+        "C06" => (c06::LEVEL, c06::subs(env)),
         "C08" => (c08::LEVEL, c08::subs(env)),
         other => panic!("no harness for property {other} in this build"),
     }
